@@ -635,7 +635,16 @@ def cases(tier, rng):
     #     only in length, the empty key; every arrangement (longer first, ...)
     fam = {"dna": ["AC", "ACA", "ACAA", "", "A", "C", "AAC", "CA"],
            "str": ["ab", "ab ", "ab  ", "", "a", "b", "aba", " a"],
-           "digit": ["12", "120", "1200", "", "1", "0", "012", "2"]}
+           "digit": ["12", "120", "1200", "", "1", "0", "012", "2"],
+           # keys of ONE common length in alphabets whose code order is not the character order
+           "actg": ["TA", "GA", "GT", "AC", "CC", "TG", "GG"],
+           "amino": ["*A", "YA", "AC", "WW", "A*", "CA", "Y*"],
+           "bam": ["=A", "NA", "AC", "TT", "BN", "NB", "A="],
+           "cigar": ["MI", "=X", "XM", "DS", "IM", "X=", "SD"]}
+    # one letter per row (a 1-d encoded column): every order of 3-4 letters whose code order and character order differ
+    for kind, letters in (("actg", "TGAC"), ("amino", "*YAW"), ("bam", "N=TA"), ("cigar", "M=XD")):
+        for sel in itertools.permutations(letters, 3 if not big else 4):
+            yield {"op": "sort_text", "type": "D_all", "kind": kind, "texts": list(sel), "flat": True}
     for kind, texts in fam.items():
         for k in ((2, 3, 4) if big else (2, 3)):
             for sel in itertools.permutations(texts, k):
@@ -831,16 +840,20 @@ def impl(c):
         from bionumpy.bnpdataclass import make_dataclass
         key = ("sort_cls", c["kind"])
         if key not in _CACHE:
-            ft = {"dna": m["pytype"]["dna"], "str": str, "digit": _alpha("DigitEncoding")}[c["kind"]]
+            ft = {"dna": m["pytype"]["dna"], "str": str, "digit": _alpha("DigitEncoding"), "actg": _alpha("ACTGEncoding"),
+                  "amino": _alpha("AminoAcidEncoding"), "bam": _alpha("BamEncoding"), "cigar": _alpha("CigarOpEncoding")}[c["kind"]]
             _CACHE[key] = make_dataclass([("k", ft), ("i", int), ("tag", str)], name="Sort_" + c["kind"])
         try:
             texts = c["texts"]
-            t = _CACHE[key](texts, list(range(len(texts))), ["t%d" % i for i in range(len(texts))]).sort_by("k")
+            keycol = "".join(texts) if c.get("flat") else texts       # flat: one str -> a 1-d encoded column, one letter per row
+            t = _CACHE[key](keycol, list(range(len(texts))), ["t%d" % i for i in range(len(texts))]).sort_by("k")
             ids = [int(x) for x in t.i]
             tags = t.tag.tolist()
+            ktexts = t.k.tolist()
+            ktexts = list(ktexts) if isinstance(ktexts, str) else ktexts
             if tags != ["t%d" % i for i in ids]:
-                return {"ids": ids, "texts": t.k.tolist(), "rows_torn": tags}
-            return {"ids": ids, "texts": t.k.tolist()}
+                return {"ids": ids, "texts": ktexts, "rows_torn": tags}
+            return {"ids": ids, "texts": ktexts}
         except Exception as e:
             return {"err": "raise", "exc": type(e).__name__}
     if c["op"] == "add_twice":
@@ -1030,7 +1043,7 @@ def finding_key(c, got, exp):
     if c["op"] == "construct_enc":
         return "construct:encoded-in-other-alphabet-" + ("silently-different-text" if "text" in got else "other")
     if c["op"] == "sort_text":
-        return "sort_by:text-order-" + c["kind"]
+        return "sort_by:text-order-" + c["kind"] + ("-one-letter-rows" if c.get("flat") else "")
     if c["op"] == "add_twice":
         return "add_fields:history-" + c["k1"] + "-then-" + c["k2"]
     if c["op"] == "sort_long":
